@@ -102,12 +102,38 @@ def cmd_run(names, tier, also):
             shutil.rmtree(d, ignore_errors=True)
 
 
+def cmd_matrix(names, tier="quick"):
+    """Run every check that covers the files a seeded change touches (mapping of tools/automut.py); write seeded/MATRIX.md."""
+    sys.path.insert(0, HERE)
+    from automut import CHECKS_FOR
+
+    rows = []
+    for name in names_or_all(names):
+        dst = os.path.join(SEEDED, name)
+        patch = open(os.path.join(dst, "patch.diff")).read()
+        files = sorted({os.path.basename(l.split()[-1]) for l in patch.splitlines() if l.startswith("+++ ")})
+        meta = json.load(open(os.path.join(dst, "meta.json")))
+        checks = [meta["property"]] + [c for f in files for c in CHECKS_FOR.get(f, []) if c != meta["property"]]
+        checks = list(dict.fromkeys(checks))
+        cmd_run([name], tier, checks[1:])
+        meta = json.load(open(os.path.join(dst, "meta.json")))
+        det = meta.get("detection", {})
+        rows.append((name, meta["property"], files, {c: det.get("%s/%s" % (c, tier), {}).get("verdict", "-") for c in checks}))
+    with open(os.path.join(SEEDED, "MATRIX.md"), "w") as f:
+        f.write("# Seeded changes x checks (quick tier, seed %s)\n\nEach change was run against its own property's check and against every check mapped to the files it touches.\n\n" % os.environ.get("VERIF_SEED", "1"))
+        f.write("| seed | property | files | caught by | missed by |\n|---|---|---|---|---|\n")
+        for name, prop, files, d in rows:
+            f.write("| %s | %s | %s | %s | %s |\n" % (name, prop, ", ".join(files), " ".join(c for c, v in d.items() if v == "caught"), " ".join(c for c, v in d.items() if v != "caught") or "-"))
+
+
 if __name__ == "__main__":
     a = sys.argv[1:]
     if a[0] == "import":
         cmd_import(a[1], a[2])
     elif a[0] == "verify":
         cmd_verify(a[1:])
+    elif a[0] == "matrix":
+        cmd_matrix(a[1:])
     elif a[0] == "run":
         tier, also, names = "quick", [], []
         it = iter(a[1:])
